@@ -247,6 +247,9 @@ func (m *modeler) mangleOne(sp ManglerSpec, f *mfield, top bool) ([]*mfield, err
 		cp := f.clone()
 		cp.name += aliasSuffixMarker
 		cp.nameKnown, cp.wordsKnown, cp.words = false, false, nil
+		// the copy is a field of its own under the alias name, not an
+		// embedded field
+		cp.anon = false
 		for tag, av := range aliasVals {
 			cp.tags[tag] = tagVal{val: namePart(av.val), known: av.known, words: av.words, wk: av.wk}
 		}
@@ -266,6 +269,7 @@ func (m *modeler) mangleOne(sp ManglerSpec, f *mfield, top bool) ([]*mfield, err
 			}
 			nf := f
 			nf.anon = false
+			nf.nameKnown = false
 			nf.tags[sp.Tag] = encodeComps(sp.Enc, m.tagComps(sp.Tag, f))
 			nf.tags["dialsfieldpath"] = tagVal{}
 			return []*mfield{nf}, nil
@@ -418,7 +422,7 @@ func (m *modeler) flattenStruct(sp ManglerSpec, names []nameComp, comps []comp, 
 			b.WriteString(n.name)
 			nf.nameKnown = nf.nameKnown && n.known
 		}
-		nf.name = b.String()
+		nf.name = b.String() // only used to detect colliding names (a precondition)
 		nf.nameKnown = false // the flattened Go name is the library's business; the key is the tag
 		nf.wordsKnown, nf.words = false, nil
 		nf.tags[sp.Tag] = encodeComps(sp.Enc, cc)
@@ -591,7 +595,12 @@ type tleaf struct {
 
 func (m *modeler) leaves(fs []*mfield, keyPath []string, choices []choice, out *[]tleaf) error {
 	seen := map[string]bool{}
+	names := map[string]bool{}
 	for _, f := range fs {
+		if names[f.name] {
+			return errPre{fmt.Sprintf("Go field name %q occurs twice below %v", f.name, keyPath)}
+		}
+		names[f.name] = true
 		k, ok := m.key(f)
 		if !ok {
 			return errPre{fmt.Sprintf("field %s below %v has no documented key under key tags %v", strings.Join(f.origin, "."), keyPath, m.keyTags)}
